@@ -107,6 +107,12 @@ def run(ctx):
     ctx.ob('C10.R2', 'explain:container-enumeration-guard', em.where(fn),
            'the explanation path enumerates items only of Collections', ok, detail)
 
+    # ---- R5 ----------------------------------------------------------------------
+    # the explanation path must not copy or consume a non-Collection object either (rule shared with C03.R7:
+    # len / iter / next / enumerate / tuple / list of cause.pith only under isinstance(cause.pith, Collection))
+    from .c03 import _licensed_operations
+    _licensed_operations(ctx, rows, 'C10.R5')
+
     # ---- R3 ----------------------------------------------------------------------
     ctx.rule('C10.R3', 'mapping values are read through a key obtained from the mapping itself '
              '(x[next(iter(x))] / next(iter(x.values()))): no lookup with a fresh key that could insert into a '
